@@ -44,7 +44,43 @@ def clmul_support(ma, mb):
     return s
 
 
-def check(solver_timeout_ms, *assertions):
+CROSS = {"enabled": False, "dir": None, "n": 0, "agree": 0, "results": []}
+
+
+def cross_check(s, name, expected):
+    """Second opinion from another solver binary on the SMT-LIB2 export of the same query
+    (thorough tier): z3-new 5.x for bit-vector queries, cvc5 for the Boolean ones.  Any
+    `(error` line or a different verdict makes the query inconclusive."""
+    import os
+    import subprocess
+
+    if not CROSS["enabled"]:
+        return True
+    path = os.path.join(CROSS["dir"], f"{name}.smt2")
+    with open(path, "w") as f:
+        f.write("(set-logic ALL)\n" + s.to_smt2())
+    outs = []
+    ok = True
+    for solver, cmd in (("z3-new", ["z3-new", "-T:300", path]), ("cvc5", ["cvc5", "--lang", "smt2", "--tlimit=300000", path])):
+        if solver == "cvc5" and not name.startswith("anf_"):
+            continue  # cvc5 needs minutes per 128-bit bvmul lemma (measured: 3m44)
+        try:
+            p = subprocess.run(cmd, text=True, capture_output=True, timeout=400)
+            out = (p.stdout + p.stderr).strip()
+        except Exception as e:  # noqa: BLE001
+            out = f"failed to run: {e}"
+        verdict = out.split("\n")[0].strip() if out else ""
+        outs.append((solver, verdict))
+        CROSS["n"] += 1
+        if "(error" in out or verdict != expected:
+            ok = False
+        else:
+            CROSS["agree"] += 1
+    CROSS["results"].append((name, outs))
+    return ok
+
+
+def check(solver_timeout_ms, *assertions, name=None):
     s = z3.Solver()
     s.set("timeout", solver_timeout_ms)
     for a in assertions:
@@ -53,11 +89,15 @@ def check(solver_timeout_ms, *assertions):
     r = s.check()
     dt = time.time() - t0
     model = s.model() if r == z3.sat else None
+    if name and str(r) == "unsat" and not cross_check(s, name, "unsat"):
+        return "unknown (solvers disagree)", dt, None
     return str(r), dt, model
 
 
-def run(dump_text, timeout_ms=120000):
+def run(dump_text, timeout_ms=120000, cross_dir=None):
     """-> list of result dicts (harness-like) for the runner."""
+    if cross_dir:
+        CROSS.update(enabled=True, dir=cross_dir)
     bodies, consts = mir.parse_dump(dump_text)
     results = []
     x = z3.BitVec("x", 64)
@@ -104,7 +144,7 @@ def run(dump_text, timeout_ms=120000):
         no_ovf = z3.Extract(2 * w - 1, w, wide) == 0
         cl = clmul_expr(a, b, w, bits_of(ma))
         goal = z3.And(no_ovf, (prod & z3.BitVecVal(sup, w)) == cl)
-        r, dt, model = check(timeout_ms, pre, z3.Not(goal))
+        r, dt, model = check(timeout_ms, pre, z3.Not(goal), name=f"lemma_{k}")
         t_lem += dt
         if r == "unsat":
             n_ok += 1
@@ -165,6 +205,8 @@ def run(dump_text, timeout_ms=120000):
             obl_bad.append(d)
     s.add(z3.Or(*diffs))
     r = str(s.check())
+    if r == "unsat" and not cross_check(s, "anf_clmul64_composition", "unsat"):
+        r = "unknown (solvers disagree)"
     dt = time.time() - t0
     fail = []
     if r == "sat":
@@ -257,6 +299,9 @@ def run(dump_text, timeout_ms=120000):
             replay_kind="smt",
         )
     )
+    if CROSS["enabled"]:
+        for r_ in results:
+            r_["cross_check"] = f"{CROSS['agree']} of {CROSS['n']} second-solver runs (z3-new 5.x on the bvmul lemmas, z3-new + cvc5 on the ANF composition) agree"
     return results
 
 
